@@ -858,6 +858,10 @@ class Executor(object):
             return z3.Select(container.x[3], self._key_term(container, item))
         if container.kind == "tuple":
             return z3.Or(*[self.py_eq(item, x) for x in container.t]) if container.t else z3.BoolVal(False)
+        if container.kind == "ref" and container.cls is not None and (
+                self._find_method(container.cls, "__contains__") is not None or self._contract_for(container.cls, "__contains__") is not None):
+            # `x in obj` is obj.__contains__(x)
+            return self.truthy(self.call_method(st, container, "__contains__", [item], {}, ln))
         raise Unsupported("membership in %s" % container.kind)
 
     # ---- dictionaries as maps (domain + value arrays); only on the access path obj.field
@@ -865,6 +869,15 @@ class Executor(object):
         ks = m.kind.split(":")[1]
         if k.kind == "none" and ks == "ref":
             return NONE
+        if k.kind == "opaque":
+            # an abstracted value used as a dictionary key: some value of the key sort -- the same one
+            # every time this very value is used (the SV object is what a variable holds)
+            t = getattr(k, "_as_key", None)
+            if t is None or t.sort() != sort_of(ks, self.bits):
+                self.fresh_n += 1
+                t = z3.Const("opqkey!%d" % self.fresh_n, sort_of(ks, self.bits))
+                k._as_key = t
+            return t
         if k.kind != ks:
             raise Unsupported("map key of kind %s, expected %s" % (k.kind, ks))
         return k.t
@@ -936,6 +949,29 @@ class Executor(object):
             return
         raise Unsupported("subscript store at line %s" % ln)
 
+    def map_delete(self, st, m, k, ln):
+        """del m[k]: KeyError when absent"""
+        self.require_not_none(st, m, "item deletion from a dictionary attribute", ln)
+        kt = self._key_term(m, k)
+        present = z3.Select(m.x[3], kt)
+        x = st.copy()
+        x.assume(z3.And(*self.guard, z3.Not(present)) if self.guard else z3.Not(present))
+        self.pending_raises.append(Exit("raise", x, exc="KeyError", lineno=ln))
+        st.assume(z3.Implies(z3.And(*self.guard), present) if self.guard else present)
+        # re-read the map: the path condition above speaks about the current value
+        cur = self.get_attr(st, m.x[0], m.x[1], ln)
+        self.map_store(st, cur, cur.t, z3.Store(cur.x[3], kt, z3.BoolVal(False)))
+
+    def st_Delete(self, s, st):
+        for t in s.targets:
+            if isinstance(t, ast.Subscript):
+                base = self.ev(t.value, st)
+                if base.kind.startswith("map:"):
+                    self.map_delete(st, base, self.ev(t.slice, st), s.lineno)
+                    continue
+            raise Unsupported("del of %s at line %d" % (type(t).__name__, s.lineno))
+        return [st], []
+
     def map_method(self, st, m, name, args, ln):
         if name == "pop":
             kt = self._key_term(m, args[0])
@@ -956,6 +992,13 @@ class Executor(object):
                     res = self._val_sv(m, z3.Select(m.t, kt), none=z3.Not(present))
             self.map_store(st, m, m.t, z3.Store(m.x[3], kt, False))
             return res
+        if name == "__contains__":
+            return SV("bool", z3.Select(m.x[3], self._key_term(m, args[0])))
+        if name == "__delitem__":
+            self.map_delete(st, m, args[0], ln)
+            return NoneV()
+        if name == "keys" and not args:
+            return SV("keysnap:" + m.kind.split(":")[1], m.x[3], cls=m.cls, x=m)
         if name == "clear":
             ks = m.kind.split(":")[1]
             self.map_store(st, m, m.t, z3.K(sort_of(ks, self.bits), z3.BoolVal(False)))
@@ -994,9 +1037,16 @@ class Executor(object):
                         return sb(e, st)
         f = self.ev(e.func, st)
         args = [self.ev(a, st) for a in e.args]
-        kw = {k.arg: self.ev(k.value, st) for k in e.keywords}
-        if any(k is None for k in kw):
-            raise Unsupported("**kwargs call")
+        kw = {}
+        for k in e.keywords:
+            if k.arg is None:
+                # f(..., **mapping): keywords the analysis does not know.  Only in abstracting mode: every
+                # parameter of the callee that is not passed explicitly may be supplied by the mapping
+                if not getattr(self, "lenient", False):
+                    raise Unsupported("**kwargs call")
+                kw["**"] = True
+                continue
+            kw[k.arg] = self.ev(k.value, st)
         return self.call(st, f, args, kw, ln)
 
     # ---- builtins
@@ -1265,6 +1315,8 @@ class Executor(object):
             raise Unsupported("too many positional args for %s" % fn.name)
         for p, v in zip(params, pos):
             env[p] = v
+        kw = dict(kw)
+        star = kw.pop("**", False)
         for k, v in kw.items():
             if k not in params and k not in [x.arg for x in a.kwonlyargs]:
                 if a.kwarg is None:
@@ -1277,6 +1329,9 @@ class Executor(object):
         nd = len(defaults)
         for i, p in enumerate(params):
             if p not in env:
+                if star:
+                    env[p] = self.opaque("parameter %s possibly supplied through **kwargs" % p)
+                    continue
                 j = i - (len(params) - nd)
                 if j < 0:
                     raise Unsupported("missing argument %s for %s" % (p, fn.name))
@@ -1630,6 +1685,11 @@ class Executor(object):
             return self.exec_block(s.body, [st])
         if z3.is_false(c):
             return self.exec_block(s.orelse, [st])
+        k = self.known_by_path(st, c)
+        if k is True:
+            return self.exec_block(s.body, [st])
+        if k is False:
+            return self.exec_block(s.orelse, [st])
         s1 = st.copy()
         s1.assume(c)
         s2 = st.copy()
@@ -1644,6 +1704,17 @@ class Executor(object):
         return n1 + n2, exits
 
     prune_infeasible = False
+
+    def known_by_path(self, st, c):
+        """a condition (or its negation) that is literally one of the path facts: only one branch is live"""
+        nc = z3.simplify(z3.Not(c))
+        for fact in st.pc:
+            f = z3.simplify(fact)
+            if f.eq(c):
+                return True
+            if f.eq(nc):
+                return False
+        return None
 
     def feasible(self, st):
         # pruning is only an optimisation; with quantified axioms a sat answer is slow/unknown
